@@ -7,14 +7,14 @@ from .C08 import LAYOUTS
 REG = Registry("C07")
 
 
-def _mk(kind, Rc, Rx, regime):
+def _mk(kind, Rc, Rx, regime, px_diag=False):
     def ob(w):
         xp = w.xp
         Dy = "Dy"
         Dx = "Dy" if kind.startswith("identity") else "Dx"
         dx, dy = w.size(Dx), w.size(Dy)
         h = SP.gen_cond_handle(w, kind, "c", Rc, Dy, Dx)
-        p_x, px = SP.gen_pdf(w, "x", Rx, Dx)
+        p_x, px = SP.gen_pdf(w, "x", Rx, Dx, diag=px_diag)
         from .common import fresh_result, params_unchanged, snapshot as _snap
         spx_, sc_ = _snap(p_x), _snap(h.obj)
         joint = h.call("affine_joint_transformation", p_x)              # REAL
@@ -91,6 +91,30 @@ def _register():
 
 
 _register()
+
+
+def _register_more():
+    # prior given as a GaussianDiagPDF; size-one dimension sorts (a generic sort stands for sizes >= 2)
+    for kind in ("full", "identity"):
+        cls = SP.COND_CLS[kind]
+        for (Rc, Rx) in LAYOUTS:
+            regimes = ["Dx=Dy"] if kind == "identity" else ["Dx>Dy", "Dx<=Dy"]
+            for regime in regimes:
+                order = {("Dx", "Dy"): True} if regime == "Dx>Dy" else ({("Dx", "Dy"): False} if regime == "Dx<=Dy" else {})
+                sorts = [s for s in (Rc, Rx) if s != 1] + ["Dy", "N"] + ([] if kind == "identity" else ["Dx"])
+                REG.ob(f"{cls}.affine_joint_transformation/R=({Rc},{Rx})/{regime}/prior=GaussianDiagPDF", sorts=sorts, order=order,
+                       funcs=[f"conditional.{cls}.affine_joint_transformation", "pdf.GaussianDiagPDF.__post_init__"],
+                       lemmas=["GtvLemmas.det_fromBlocks11", "GtvLemmas.det_fromBlocks22", "GtvLemmas.det_diagonal"])(_mk(kind, Rc, Rx, regime, True))
+    for unit, regime in (("Dy", "Dx>Dy"), ("Dx", "Dx<=Dy")):
+        for (Rc, Rx) in LAYOUTS:
+            sorts = [s for s in (Rc, Rx) if s != 1] + ["Dy", "N", "Dx"]
+            REG.ob(f"ConditionalGaussianPDF.affine_joint_transformation/R=({Rc},{Rx})/{unit}=1", sorts=sorts, unit_sorts=[unit],
+                   order={("Dx", "Dy"): unit == "Dy"},
+                   funcs=["conditional.ConditionalGaussianPDF.affine_joint_transformation"],
+                   lemmas=["GtvLemmas.det_fromBlocks11", "GtvLemmas.det_fromBlocks22"])(_mk("full", Rc, Rx, regime))
+
+
+_register_more()
 
 
 from . import condctor as _cc  # noqa: E402
